@@ -545,3 +545,16 @@ func H_C02_tag_sequence() {
 	}
 	vReach("end")
 }
+
+// field names beyond ASCII: exported exactly when the first letter is upper case in any script
+type vWNames struct {
+	Épée  string `valid:"required,r1"`
+	ñame  string `valid:"required,r1"`
+	_rev  string `valid:"required"`
+	Ωmega int    `valid:"r2"`
+	A     string `valid:"r3"`
+}
+
+func H_C02_field_name_classes() {
+	vRun("C02 field names of every class", &vWNames{Épée: vStr("E"), Ωmega: vndInt("O"), A: vStr("A")})
+}
